@@ -102,6 +102,7 @@ RULE = ("seq: programs of 5-40 commands over 1-6 colliding keys generated from t
 
 
 def setup():
+    core.gen_tables()
     rc, out = core.sh(["lake", "build"], cwd=core.LEAN, timeout=3400)
     print(out[-3000:])
     if rc != 0:
@@ -325,6 +326,7 @@ def finish(prop, tier, seed, t0, lean, n_obl, n_dis, stats, violations, known_hi
             "checker_cmd": lean.get("checker_cmd", "") + ("; lake env leanchecker (independent re-check of the compiled module): " + lean["leanchecker"] if lean.get("leanchecker") else ""),
             "trusted_base": core.TRUSTED,
             "obligation_list": [{"name": o["name"], "axioms": o["axioms"]} for o in lean["obligations"]],
+            "tables_regenerated_from_source": lean.get("tables", {}),
             "source_scan_hits": scan,
             "evaluations": evals, "distinct_nontrivial": dn, "rule": RULE_STREAM if any(s.get("suite") in ("codec", "conn", "grid") for s in stats) else (RULE_POLICY if any(s.get("suite") == "policy" for s in stats) else (RULE_SERVER if any(s.get("suite") == "server" for s in stats) else (RULE_SCHED if any(s.get("suite") in ("sched", "stress") for s in stats) else (RULE_CONFIG if any(s.get("suite") == "config" for s in stats) else RULE)))),
             "samples": samples or [],
